@@ -34,6 +34,10 @@ structure Resp (σ : Type) where
   tag    : Option σ     -- header "X-Tag"
   ra     : Option σ     -- raw value of the configured Retry-After header
   raNs   : Option Int   -- … parsed (seconds → ns), `none` when it is not a decimal number
+  raExact : Bool        -- the header arrived under EXACTLY the configured name (the code looks it up with `headers[name]`;
+                        --   `false`: it arrived under a name that differs in letter case, e.g. lower-cased by utils.ParseHeaders)
+  raDate : Option Int   -- the value read as an HTTP-date (IMF-fixdate), in ns; only the Spec looks at it: the code does
+                        --   not parse dates (strconv.ParseFloat fails ⇒ the response is not stored)
 deriving DecidableEq, Repr
 
 /-- `CachedResponse` -/
@@ -162,6 +166,7 @@ def tstep (absTtl : AbsTtl) (cfg : TCfg) (c : TCache σ) : POp σ → TCache σ 
   | .resp m u _ r _ _ =>
     if !cfg.statuses.contains r.status then (c, .noop)
     else if has c (m, u) then (c, .noop)
+    else if !r.raExact then (c, .noop)                    -- `headers[RetryAfterHeader]` not found
     else
       match r.raNs.bind (ttlOf absTtl cfg c.now) with
       | none => (c, .noop)
@@ -235,6 +240,45 @@ def parseDecNs (s : String) : Option Int :=
       let v : Int := (digitsVal ip * 1000000000 + digitsVal frac9 : Nat)
       some (if neg then -v else v)
 
+/-- days since 1970-01-01 of a civil date (proleptic Gregorian) -/
+def daysFromCivil (y m d : Int) : Int :=
+  let y := if m ≤ 2 then y - 1 else y
+  let era := (if y ≥ 0 then y else y - 399) / 400
+  let yoe := y - era * 400
+  let mp := (m + 9) % 12
+  let doy := (153 * mp + 2) / 5 + d - 1
+  let doe := yoe * 365 + yoe / 4 - yoe / 100 + doy
+  era * 146097 + doe - 719468
+
+def monthOf (s : String) : Option Int :=
+  (["Jan", "Feb", "Mar", "Apr", "May", "Jun", "Jul", "Aug", "Sep", "Oct", "Nov", "Dec"].idxOf? s).map fun i => (i : Int) + 1
+
+def nat2 (s : String) (len : Nat) : Option Int :=
+  if s.length == len && s.all Char.isDigit then s.toNat?.map Int.ofNat else none
+
+/-- IMF-fixdate `Tue, 14 Nov 2023 22:13:21 GMT` ↦ ns since the epoch (the first format of `http.ParseTime`;
+    the other two, RFC 850 and asctime, are not generated). -/
+def parseHttpDate (s : String) : Option Int :=
+  match s.splitOn " " with
+  | [wd, dd, mon, yyyy, hms, "GMT"] =>
+    if !(["Mon,", "Tue,", "Wed,", "Thu,", "Fri,", "Sat,", "Sun,"].contains wd) then none else
+    match hms.splitOn ":" with
+    | [hh, mm, ss] => do
+      let d ← nat2 dd 2
+      let mo ← monthOf mon
+      let y ← nat2 yyyy 4
+      let h ← nat2 hh 2
+      let mi ← nat2 mm 2
+      let sec ← nat2 ss 2
+      if d < 1 || d > 31 || h > 23 || mi > 59 || sec > 59 then none
+      else some ((daysFromCivil y mo d * 86400 + h * 3600 + mi * 60 + sec) * 1000000000)
+    | _ => none
+  | _ => none
+
+#guard parseHttpDate "Tue, 14 Nov 2023 22:13:20 GMT" == some 1700000000000000000
+#guard parseHttpDate "Thu, 01 Jan 1970 00:00:00 GMT" == some 0
+#guard parseHttpDate "Tue, 14 Nov 2023" == none
+#guard parseDecNs "Tue, 14 Nov 2023 22:13:20 GMT" == none
 #guard parseDecNs "1.5" == some 1500000000
 #guard parseDecNs "-2" == some (-2000000000)
 #guard parseDecNs ".125" == some 125000000
